@@ -129,6 +129,52 @@ theorem exec_indep (hs : Handlers R) (hH : hs.Good (fun _ => True)) (fuel : Nat)
   | zero => intro st1 st2 root; rfl
   | succ fuel ih => exact execWith_indep (exec hs fuel) ih (exec_frame hs hH fuel) hs hH
 
+/-- running `p.bind f` is running `p` and then `f` on its result; an exception of `p` ends it -/
+theorem runProg_bind (nested : St R → PNode → St R × Except Err R) (p : HProg R) (f : R → HProg R) (st : St R) :
+    runProg nested st (p.bind f) =
+      match runProg nested st p with
+      | (st', .ok r) => runProg nested st' (f r)
+      | (st', .error e) => (st', .error e) := by
+  induction p generalizing st with
+  | ret r => rfl
+  | fail e => rfl
+  | call root k ih =>
+    simp only [HProg.bind, runProg]
+    cases nested st root with
+    | mk s1 x =>
+      cases x with
+      | ok r => exact ih r s1
+      | error e => rfl
+  | tryCall root k ih =>
+    simp only [HProg.bind, runProg]
+    cases nested st root with
+    | mk s1 x => exact ih x s1
+
+theorem denoteProg_bind (dn : PNode → Except Err R) (p : HProg R) (f : R → HProg R) :
+    denoteProg dn (p.bind f) =
+      match denoteProg dn p with
+      | .ok r => denoteProg dn (f r)
+      | .error e => .error e := by
+  induction p with
+  | ret r => rfl
+  | fail e => rfl
+  | call root k ih =>
+    simp only [HProg.bind, denoteProg]
+    cases dn root with
+    | ok r => exact ih r
+    | error e => rfl
+  | tryCall root k ih =>
+    simp only [HProg.bind, denoteProg]
+    exact ih _
+
+/-- chaining keeps handler programs inside the class the theorems are about -/
+theorem good_bind (P : PNode → Prop) (p : HProg R) (f : R → HProg R) (hp : p.Good P) (hf : ∀ r, (f r).Good P) :
+    (p.bind f).Good P := by
+  induction hp with
+  | ret r => exact hf r
+  | fail e => exact .fail e
+  | call root k hroot _ ih => exact .call root _ hroot ih
+
 theorem steps_emitter (fuel : Nat) (s : PState R) (cs : List (Call R)) :
     (steps fuel s cs).emitter = emitterAfter s.emitter cs := by
   induction cs generalizing s with
